@@ -164,6 +164,48 @@ nd::harnesses! {
         assert!(live() == 0 && drops() == made());
     }
 
+    /// The same tree with the library's own reference-counted handles as the context: `CArc`, `CArcSome`,
+    /// and each obtained from the other by `transpose()`. The count is `Arc::strong_count` of an observer.
+    #[kani::unwind(4)]
+    fn c07_arc_context_tree() {
+        reset();
+        let v: u32 = nd::any();
+        let base = std::sync::Arc::new(Pay::new(v));
+        macro_rules! tree {
+            ($ctx:expr) => {{
+                let obj = trait_obj!((P::new(v), $ctx) as Maker);
+                assert!(std::sync::Arc::strong_count(&base) == 2, "building the context handle neither takes nor releases a reference");
+                let c1 = obj.make();
+                let c2 = obj.make_group();
+                assert!(std::sync::Arc::strong_count(&base) == 4, "every derived object holds its own clone of the context");
+                let ending: u8 = nd::any();
+                nd::assume(ending < 3);
+                let mut tail = None;
+                match ending {
+                    0 => drop(obj),
+                    1 => { assert!(obj.finish() == v ^ 4); }
+                    _ => { tail = Some(obj.into_leaf()); }
+                }
+                let t = if tail.is_some() { 1 } else { 0 };
+                assert!(std::sync::Arc::strong_count(&base) == 3 + t);
+                assert!(c1.val() == v ^ 1 && c2.val() == v ^ 2);
+                if nd::any() { drop(c1); drop(c2); drop(tail); } else { drop(tail); drop(c2); drop(c1); }
+            }};
+        }
+        let kind: u8 = nd::any();
+        nd::assume(kind < 4);
+        nd::cover!(kind == 2, "CArcSome obtained from CArc");
+        match kind {
+            0 => tree!(CArc::<Pay>::from(base.clone())),
+            1 => tree!(CArcSome::<Pay>::from(base.clone())),
+            2 => tree!(CArc::<Pay>::from(base.clone()).transpose().unwrap()),
+            _ => tree!(CArcSome::<Pay>::from(base.clone()).transpose()),
+        }
+        assert!(std::sync::Arc::strong_count(&base) == 1, "after all derived objects are dropped the count is back to its starting value");
+        drop(base);
+        assert!(live() == 0 && drops() == made());
+    }
+
     /// During a by-value call the context is not released before control is back in the caller.
     #[kani::unwind(4)]
     fn c07_consuming_call_keeps_context() {
